@@ -227,3 +227,23 @@ pub proof fn lemma_fn_titems_from(r: Seq<(SortedIds, F64)>, f: v1::Function, j: 
         None => {}
     }
 }
+// the length of a key: at most 2 for constant / linear / quadratic messages, the length of the monomial's id list for a polynomial
+pub proof fn lemma_fn_titems_len(r: Seq<(SortedIds, F64)>, f: v1::Function, j: int)
+    requires fn_titems_ok(r, f), 0 <= j < r.len()
+    ensures match f.function { Some(v1::function::Function::Polynomial(p)) => j < p.terms.len() && r[j].0.0@.len() == p.terms[j].ids@.len(), _ => r[j].0.0@.len() <= 2 }
+{
+    let s = sitems(r);
+    assert(s.len() == r.len());
+    assert(s[j] == (r[j].0.0@, r[j].1));
+    match f.function {
+        Some(v1::function::Function::Constant(c)) => { assert(s[0] == (Seq::<u64>::empty(), c)); }
+        Some(v1::function::Function::Linear(l)) => { assert(s[j] == lkeyed(l)[j]); }
+        Some(v1::function::Function::Quadratic(q)) => {
+            let n = q.columns.len() as int;
+            assert(s == quad_titems(q));
+            if j < n { assert(s[j] == qpart(q)[j]); } else { let l = q.linear->Some_0; assert(s[j] == lkeyed(l)[j - n]); }
+        }
+        Some(v1::function::Function::Polynomial(p)) => {}
+        None => {}
+    }
+}
